@@ -36,7 +36,8 @@ def bounds(tier):
 def required_cells(tier):
     return ["alias:compiled-through-file-link", "alias:-I-through-dir-link", "alias:dot-segments-file", "alias:dot-segments-I",
             "alias:include-through-file-link", "alias:once-header-under-two-names", "alias:forced-include",
-            "link:unused-to-member", "link:to-outside", "link:to-excluded-member", "names-differing-in-case", "link:extension-of-another-language", "link:to-sibling-with-root-prefix", "alias:root-directory-through-link", "same-file-from-2-commands", "one-tree-per-inode", "cli:tree-links"]
+            "link:unused-to-member", "link:to-outside", "link:to-excluded-member", "names-differing-in-case", "link:extension-of-another-language", "link:to-sibling-with-root-prefix", "alias:root-directory-through-link",
+            "alias:dotdot-after-directory-link", "alias:once-header-forced-twice", "same-file-from-2-commands", "one-tree-per-inode", "cli:tree-links"]
 
 
 def dots(rng, rel):
@@ -68,9 +69,14 @@ def decorate(rng, case):
             links[l] = b
             tu["file"] = l
             cells.add("alias:compiled-through-file-link")
-        elif x < 0.7:
+        elif x < 0.6:
             tu["file"] = dots(rng, tu["file"])
             cells.add("alias:dot-segments-file")
+        elif x < 0.8 and os.path.dirname(tu["file"]) == "src":
+            # `..` after a directory link climbs from the link's TARGET (src/linkdeep), not from where the link sits
+            links["dl"] = "src/linkdeep"
+            tu["file"] = os.path.join("dl", "..", os.path.basename(tu["file"]))
+            cells.add("alias:dotdot-after-directory-link")
         new_search = []
         for k, d in tu["search"]:
             y = rng.random()
@@ -86,9 +92,15 @@ def decorate(rng, case):
         tu["search"] = new_search
         if tu["includes"]:
             cells.add("alias:forced-include")
-            if rng.random() < 0.5:
+            y2 = rng.random()
+            if y2 < 0.4:
                 links["inc/l_pre.h"] = "pre.h"
                 tu["includes"] = ["@abs:inc/l_pre.h"]
+            elif y2 < 0.8 and case.get("pre_once"):
+                # the #pragma once header forced twice: under its own name and through a second name
+                links["inc/l_pre.h"] = "pre.h"
+                tu["includes"] = ["@abs:inc/pre.h", "@abs:inc/l_pre.h"]
+                cells.add("alias:once-header-forced-twice")
     # an #include spelled through a file symlink of a uniquely named header
     if unique and rng.random() < 0.8:
         target = rng.choice(unique)
@@ -162,6 +174,7 @@ def materialize_links(ac, base):
     for rel, text in ac.get("outside_files", {}).items():
         with open(forest.abspath(root, out, rel), "w") as f:
             f.write(text)
+    os.makedirs(os.path.join(root, "src", "linkdeep"), exist_ok=True)
     for l, t in ac.get("links", {}).items():
         p = os.path.join(root, l)
         os.makedirs(os.path.dirname(p), exist_ok=True)
@@ -314,6 +327,16 @@ def run_shard(ctx):
         if rng.random() < 0.3 and len(case["tus"]) >= 2:
             # the same file compiled by two commands with different defines
             case["tus"][1]["file"] = case["tus"][0]["file"]
+        if i % 3 == 1 and "inc/pre.h" in case["files"]:
+            # the forced header carries #pragma once and changes the macro state each time it is read; every command
+            # that forces it names it twice
+            case["files"]["inc/pre.h"] = [["code"], ["once"], ["define", "FROM_PRE", "1"],
+                                          ["chain", [["ifdef", "PRE_SEEN", [["code"], ["define", "PRE_TWICE", None]]], ["else", None, [["define", "PRE_SEEN", None]]]]]]
+            case["pre_once"] = True
+            for tu in case["tus"]:
+                if tu["includes"]:
+                    tu["includes"] = ["@abs:inc/pre.h", "@abs:inc/pre.h"]
+                case["files"][tu["file"]] = case["files"][tu["file"]] + [["chain", [["ifdef", "PRE_TWICE", [["code"]]], ["else", None, [["code"]]]]]]
         if ctx.mine(i):
             check_case(ctx, case, base, "R", do_cli=(i < b["cli_cases"] * 16 and i % 16 == ctx.shard))
     shutil.rmtree(base, ignore_errors=True)
